@@ -93,7 +93,7 @@ def gen_scenario(rng):
     cls = rng.choice(["T", "T", "S"])
     nsess = rng.choice([1, 1, 2, 3])
     sc = {"cls": cls, "size": rng.choice([None, 1, 2, 5]), "widths": [rng.choice([80, 80, 40, 120, rng.randint(30, 200)]) for _ in range(nsess)],
-          "pre": rng.choice([0, 0, 1, 2, 3]), "seed": rng.getrandbits(48), "n": rng.randint(6, 30)}
+          "pre": rng.choice([0, 0, 1, 2, 3]), "seed": rng.getrandbits(48), "n": rng.randint(6, 30), "sfunc": rng.choice(["work", "work", "block", "fail"])}
     return sc
 
 
@@ -109,7 +109,7 @@ class World(ControlWorld):
         kw = {} if self.sc["size"] is None else {"pool_size": self.sc["size"]}
         if self.sc["cls"] == "T":
             return P.TaskPool(name="p", **kw)
-        return P.SimpleTaskPool(targets.block if self.sc.get("sblock") else targets.work, args=(1,), name="p", **kw)
+        return P.SimpleTaskPool(getattr(targets, self.sc.get("sfunc", "work")), args=(1,), name="p", **kw)
 
     async def ref_reply(self, width, line):
         if width not in self.refs:
@@ -144,7 +144,7 @@ class World(ControlWorld):
         tok = targets.side.set("pre")
         for i in range(self.sc["pre"]):
             if self.sc["cls"] == "T":
-                pool.apply(rng.choice([targets.block, targets.work]), args=(i,), num=rng.choice([1, 2]))
+                pool.apply(rng.choice([targets.block, targets.work, targets.fail]), args=(i,), num=rng.choice([1, 2]))
             else:
                 pool.start(rng.choice([1, 2]))
         targets.side.reset(tok)
@@ -162,7 +162,9 @@ class World(ControlWorld):
                 break
             s = rng.choice(free)
             x = rng.random()
-            if x < 0.22:
+            if x < 0.05:
+                kind, line = "valid", rng.choice(["flush", "flush", "gather-and-close", "flush -r", "until-closed"])
+            elif x < 0.22:
                 kind, line = "valid", gen_command(cls, rng).line
             elif x < 0.40:
                 kind, line = "invalid", invalid_line(cls, rng, None)
@@ -177,7 +179,24 @@ class World(ControlWorld):
                 kind, line = "probe", rng.choice(list(PROBES))
             before = snapshot(pool)
             others = [(o, len(o.writer.writes)) for o in sessions if o is not s]
-            got = await self.send(s, line)
+            mode = rng.random()
+            if mode < 0.15 and len(line) > 1:
+                got = await self.send(s, line, split=rng.random())
+                self.sit["C18.split_lines"] += 1
+            elif mode < 0.25 and kind in ("invalid", "help", "probe", "junk"):
+                # two complete lines in one segment: the first one is a probe whose reply is known
+                first = rng.choice(list(PROBES))
+                want_first = (str(getattr(pool, PROBES[first])) + "\n").encode()
+                both = await self.send_batch(s, [first, line])
+                self.sit["C18.batched_lines"] += 1
+                if len(both) != 2:
+                    self.violate("C18.one_reply", f"two lines in one segment ({first!r}, {line[:60]!r}) produced {len(both)} writes")
+                    continue
+                if both[0] != want_first:
+                    self.violate("C18.probe_exact", f"batched {first} answered {both[0][:80]!r}, expected {want_first!r}")
+                got = both[1:]
+            else:
+                got = await self.send(s, line)
             await self.check_parked()
             self.note(kind, repr(line[:120]), "->", [g[:80] for g in got])
             self.sit["C18.lines." + kind] += 1
